@@ -257,8 +257,8 @@ def rule_order(E, R):
         good = False
         if len(mv) == 1:
             c = mv[0]
-            recv = strip(c["recv"])
-            a0, a1 = c["args"][0], c["args"][1]
+            recv = deref(c["recv"])
+            a0, a1 = deref(c["args"][0]), c["args"][1]
             r0, ch0 = chain(a0)
             good = (recv.get("k") == "MethodCall" and recv["m"] in ("get_list_matcher_unchecked", "get_list_matcher")
                     and is_param(recv["recv"], cm[0], 2)
